@@ -12,7 +12,7 @@ CLAIMED={
  "C07":("exploration","black-box replay-history spec oracle over long Add/Resize histories (incl. the history switched off and on again mid-stream), porcupine linearizability checking of concurrent histories, exactly-one-winner end to end (in-process rigs and the real binary across reloads, services and the legacy format)","4.C07"),
  "C08":("exploration","collection of server salts from real response streams (freshness set, independent decode) and reflection of every recorded server output back as client input, cache on/off; bulk concurrent issuance on one key's generator (pairwise distinct)","4.C08"),
  "C09":("exploration","full (listener, key) matrix against the real binary per PRNG configuration with /metrics attribution deltas; concurrent authentications; race reports on the key list count as violations","4.C09"),
- "C10":("fault_enumeration","reload histories with enumerated fault points against the real binary; /proc socket table, sampled authentication matrix, goroutine creation sites and fd count vs a fresh start; rotated ids, > 1 MiB files, updates in quick succession, connections held open across the history","4.C10"),
+ "C10":("fault_enumeration","reload histories with enumerated fault points against the real binary; /proc socket table, sampled authentication matrix, goroutine creation sites and fd count vs a fresh start; rotated ids, > 1 MiB files, a valid configuration without any listener loaded over a serving one, updates in quick succession, connections held open across the history","4.C10"),
  "C11":("exploration","exchange log with reload windows, /metrics status deltas, exactly-once datagram ids and relay continuity on the real binary with the overlap hook H4; in-process listener close under paused relays; quiet reloads; race reports in the reload machinery count as violations","4.C11"),
  "C12":("exploration","call/return-stamped delivery histories with unique ids, forced interleavings through hook H3, release monitors (rebind, goroutine profile, fd table); back-to-back self-describing datagrams with several concurrent readers per handle","4.C12"),
  "C13":("exploration","concurrent listen/close stress with progress watchdog and goroutine-dump classification of mutex wait cycles, forced last-close-vs-listen schedules, teardown of many addresses; any call that does not return is classified","4.C13"),
